@@ -300,6 +300,44 @@ func (e *stubEnv) external(r *engine.Run, fn *ssa.Function, args []engine.Value,
 	case "path/filepath.Join", "path/filepath.Dir", "path/filepath.Base", "path/filepath.Ext", "path/filepath.IsAbs", "path/filepath.Abs", "path/filepath.Rel", "path/filepath.Clean",
 		"path.Join", "path.Dir", "path.Base":
 		return filepathStub(r, name, args)
+	case "strings.NewReader":
+		o := r.NewOpaque("strings.Reader")
+		o.Items = []engine.Value{args[0]}
+		return o, true
+	case "bufio.NewScanner":
+		var src engine.Value
+		if ifc, ok := args[0].(engine.Iface); ok {
+			if ro, ok := ifc.V.(*engine.Opaque); ok && ro.Kind == "strings.Reader" {
+				src = ro.Items[0]
+			}
+		}
+		if src == nil {
+			return nil, false
+		}
+		lines, ok := e.model(r, "VerifModelLines", []engine.Value{src}, site)
+		if !ok {
+			return nil, false
+		}
+		o := r.NewOpaque("bufio.Scanner")
+		o.Items = []engine.Value{lines}
+		o.Attrs = map[string]engine.Value{"pos": engine.BVConst(64, 0)}
+		return o, true
+	case "(*bufio.Scanner).Scan":
+		o := args[0].(*engine.Opaque)
+		lines := o.Items[0].(engine.Slice)
+		pos := int(o.Attrs["pos"].(*engine.Term).U)
+		o.Attrs["pos"] = engine.BVConst(64, uint64(pos+1))
+		return engine.BoolT(pos < lines.Len), true
+	case "(*bufio.Scanner).Text":
+		o := args[0].(*engine.Opaque)
+		lines := o.Items[0].(engine.Slice)
+		pos := int(o.Attrs["pos"].(*engine.Term).U) - 1
+		if pos < 0 || pos >= lines.Len {
+			return engine.Str{}, true
+		}
+		return lines.Elems[pos], true
+	case "(*bufio.Scanner).Err":
+		return engine.Iface{}, true
 	case "os.Exit":
 		code := 0
 		if t, ok := args[0].(*engine.Term); ok && t.Const {
